@@ -120,7 +120,10 @@ def run(ctx):
                     okr = e != i_f or facts.get(repr(fill)) is False
                 if s and e and s[0] == "const" and e[0] == "const" and s[1] < e[1]:
                     okr = True
-            elif r[0] == "call" and r[1].endswith("RangeInclusive::new") and r[2][0] == const(0) and r[2][1] in (i_f, k_f):
+                    # a float draw that feeds ln(1 - x) must exclude 1.0 (ln 0 = -inf saturates the gap and `i + g` overflows)
+                    if isinstance(e[1], float) and r[1] != "std::ops::Range":
+                        okr = False
+            elif r[0] == "call" and r[1].endswith("RangeInclusive::new") and r[2][0] == const(0) and not isinstance(r[2][0][1], float) and r[2][1] in (i_f, k_f):
                 okr = True
             ctx.check(okr, "R18-no-panic", "%s:gen_range(%s)" % (add.key, fmt(r)), t.span, "range %s is non-empty (k >= 1, i >= k on this path)" % fmt(r),
                       "gen_range over %s may be empty" % fmt(r))
